@@ -160,6 +160,8 @@ LEAF_TYPES = (
     ("ID", ID, [("", ""), ("0", "0"), ("a", "a"), (0, "0"), (12, "12")]),
     ("Lvl", _LEAF_ENUM, [(0, "ZERO"), ("", "EMPTY"), (1, "ONE"), ("u", "U"), (-1, "NEG")]),
     ("Tag", _LEAF_SCALAR, [(0, "T:0"), ("", "T:''"), (False, "T:False"), ((), "T:()"), ("x", "T:'x'")]),
+    # (appended) values that are EQUAL (and hash alike) across Python types but serialise differently: 1 / 1.0 / True, 0 / 0.0 / False / -0.0
+    ("Tag", _LEAF_SCALAR, [(1, "T:1"), (1.0, "T:1.0"), (True, "T:True"), (0.0, "T:0.0"), (-0.0, "T:-0.0"), ("1", "T:'1'")]),
 )
 LEAF_WRAPS = ("T", "T!", "[T]", "[T!]", "[T]!", "[[T]]", "[T!]!")
 LEAF_SOURCES = ("resolver", "mapping key", "attribute", "method", "falsy object attribute")
@@ -190,14 +192,27 @@ def _leaf_world(wrap, tobj, value, good):
     raise AssertionError(wrap)
 
 
-def _leaf_values(ty: int, val: int, wrap: int, src: int, ex: int) -> bool:
+def _twin(v):
+    """a value of ANOTHER Python type that compares (and hashes) equal to v, or None"""
+    if isinstance(v, bool):
+        return 1 if v else 0
+    if isinstance(v, int):
+        return float(v)
+    if isinstance(v, float) and v == int(v) and abs(v) < 2 ** 31:
+        return int(v)
+    return None
+
+
+def _leaf_values(ty: int, val: int, wrap: int, src: int, ex: int, hist: int = 0) -> bool:
     """
-    pre: 0 <= ty < len(LEAF_TYPES) and 0 <= val <= 5 and 0 <= wrap < len(LEAF_WRAPS) and 0 <= src < len(LEAF_SOURCES) and 0 <= ex <= 1
+    pre: 0 <= ty < len(LEAF_TYPES) and 0 <= val <= 6 and 0 <= wrap < len(LEAF_WRAPS) and 0 <= src < len(LEAF_SOURCES) and 0 <= ex <= 1
+    pre: 0 <= hist <= 2 and (hist == 0 or src == 0 or thorough())
     pre: shard_of(ty * 7 + wrap)
     post: _
     """
     TY = concrete_int(ty, 0, len(LEAF_TYPES) - 1)
-    VAL, WR, SRC, EX = concrete_int(val, 0, 5), pick(wrap, LEAF_WRAPS), concrete_int(src, 0, len(LEAF_SOURCES) - 1), concrete_int(ex, 0, 1)
+    VAL, WR, SRC, EX = concrete_int(val, 0, 6), pick(wrap, LEAF_WRAPS), concrete_int(src, 0, len(LEAF_SOURCES) - 1), concrete_int(ex, 0, 1)
+    HIST = concrete_int(hist, 0, 2)
     with untraced():
         tname, tobj, values = LEAF_TYPES[TY]
         if VAL > len(values):
@@ -205,6 +220,14 @@ def _leaf_values(ty: int, val: int, wrap: int, src: int, ex: int) -> bool:
         value = (LEAF_NULL, None) if VAL == len(values) else values[VAL]
         good = values[-1]
         ftype, resolved, exp_f, err_path, o_null = _leaf_world(WR, tobj, value, good)
+        if HIST:
+            # an EARLIER request in the same process (1: on the same leaf type object, 2: also in the same list) completed a value that is
+            # equal to this one but of another Python type (1 / 1.0 / True): it must not decide how this one is serialised
+            tw = None if value[0] is LEAF_NULL else _twin(value[0])
+            if tw is None or (HIST == 2 and "[" not in WR):
+                return result(True, False)
+            early = ObjectType("O", [Field("f", ListType(tobj), resolver=lambda *a, **k: [tw])])
+            process_graphql_query(Schema(ObjectType("Query", [Field("o", early)])), "{ o { f } }", root={"o": {}}, executor_cls=(BlockingExecutor, Executor)[EX])
 
         def fres(root, ctx, info):
             return resolved
@@ -233,11 +256,11 @@ def _leaf_values(ty: int, val: int, wrap: int, src: int, ex: int) -> bool:
 CONDITIONS = [
     Cond(
         name="leaf_values", fn=_leaf_values, quick=60, thorough=120, per_path=60, shards_quick=16, shards_thorough=16,
-        bound="CompleteValue on leaves as a full product: 7 leaf types (Int, Float, String, Boolean, ID, enum with falsy internal values, custom scalar) x every listed value incl. the falsy ones (0, 0.0, '', False, (), enum "
+        bound="CompleteValue on leaves as a full product (x an earlier request that completed an EQUAL value of another Python type - 1 / 1.0 / True - on the same leaf type): 8 leaf value sets (Int, Float, String, Boolean, ID, enum with falsy internal values, custom scalar) x every listed value incl. the falsy ones (0, 0.0, '', False, (), enum "
               "internal 0 / '') and null x 7 wrappers (T, T!, [T], [T!], [T]!, [[T]], [T!]!) x 5 value sources (resolver, mapping key, attribute, method, attribute of a falsy object) x 2 executors: the JSON of the field, "
               "the nulled ancestor and the error path are what spec 6.4.3 / 3.5 give; siblings before and after are undisturbed",
         symbolic={"ty,val,wrap,src,ex": "choice"}, assumptions=["only values whose result coercion the specification fixes (no out-of-range Int, no cross-kind values)"],
-        witness={"ty": 0, "val": 0, "wrap": 0, "src": 0, "ex": 0},
+        witness={"ty": 0, "val": 0, "wrap": 0, "src": 0, "ex": 0, "hist": 0},
     ),
     Cond(
         name="exec_pieces", fn=_exec_pieces, quick=150, thorough=900, per_path=60, shards_quick=16, shards_thorough=16,
